@@ -1431,7 +1431,11 @@ class AnsiString:
             obj = obj[:idx] + replace + obj[idx+len(old):]
             if count > 0:
                 count -= 1
-            idx = obj._s.find(old, idx + len(new))
+            next_idx = idx + len(new)
+            if not old:
+                # An empty pattern matches before every character and at the end - step over one character
+                next_idx += 1
+            idx = obj._s.find(old, next_idx)
 
         if inplace:
             self._s = obj._s
